@@ -412,6 +412,26 @@ func selftestCmd(id string) int {
 		}
 	}
 	fmt.Printf("selftest: property=%s seeds=%d processes=%d mismatches=%d\n", id, n, procs, mismatches)
+	// instrumentation neutrality: instrumented and pristine builds must compute the same results
+	refDigest := func(bin string) string {
+		out, err := run(filepath.Join(scratch, "src"), os.Environ(), bin, "refdigest")
+		if err != nil {
+			trouble("refdigest failed: %v: %s", err, clip(out, 2000))
+		}
+		return strings.TrimSpace(out)
+	}
+	instrDigest := refDigest(bi.bin)
+	keep := scratch
+	skipInstrumentation = true
+	bi2 := prepare(pc)
+	plainDigest := refDigest(bi2.bin)
+	os.RemoveAll(scratch)
+	scratch = keep
+	fmt.Printf("selftest: neutrality instrumented=%s pristine=%s\n", instrDigest, plainDigest)
+	if instrDigest != plainDigest {
+		fmt.Printf("selftest: NEUTRALITY MISMATCH: the instrumented copy computes different results than the pristine tree\n")
+		mismatches++
+	}
 	cleanup()
 	if mismatches > 0 {
 		return 2
